@@ -197,6 +197,19 @@ def _linear(op, a, b):
     return acc
 
 
+def mk_index(v, idx):
+    """element idx of a sub-view built from raw parts is element off+idx of the slice the view was cut from
+    (`sub[0]` with `sub = &bytes[from..]` is `bytes[from]`)"""
+    if v[0] == "deref" and isinstance(v[1], tuple) and v[1] and v[1][0] in ("raw_parts", "raw_parts_mut"):
+        ptr = v[1][1]
+        off = ("int", 0, "usize")
+        if ptr[0] == "ptr_add":
+            ptr, off = ptr[1], ptr[2]
+        if ptr[0] in ("as_ptr", "as_mut_ptr"):
+            return ("index", ("deref", ptr[1]), mk_bin("Add", off, idx))
+    return ("index", v, idx)
+
+
 def mk_not(t):
     if t[0] == "bool":
         return ("bool", not t[1])
@@ -581,7 +594,7 @@ class Enumerator:
         if k == "downcast":
             return ("downcast", v, pe["v"])
         if k == "index":
-            return ("index", v, self.read_local(st, pe["l"]))
+            return mk_index(v, self.read_local(st, pe["l"]))
         if k == "cidx":
             if v[0] == "agg" and v[1] == "array":
                 n = len(v) - 2
